@@ -90,6 +90,9 @@ func (h *c11H) hn(bh restic.BlobHandle) int {
 func (h *c11H) fileData(kind int) []byte {
 	sizes := []int{0, 1, 100, 4096, 30000, 70000, 200000, 700000}
 	n := sizes[h.rng.intn(len(sizes))]
+	if n > 100000 && !h.c.thorough() {
+		n = 5000 + h.rng.intn(40000)
+	}
 	if n > 100000 && h.rng.chance(60) {
 		n = 5000 + h.rng.intn(40000)
 	}
